@@ -91,6 +91,25 @@ def gen_alone_script(rng):
     return {'cfg': {'cpn': cpn, 'gpn': 0, 'lfs': 0, 'mem': 0, 'scattered': True}, 'nodes': nodes, 'iters': iters}
 
 
+def gen_excl_script(rng):
+    """property-directed (C04, exclusive colocate tags): tasks with exclusive tags of their own spread over several nodes each
+    until every node is claimed by some tag; they complete; then a task with a further, new exclusive tag arrives at the
+    idle pilot: no node is left unclaimed, it shares one (it is not failed, it is started)"""
+    cpn = rng.choice([2, 4])
+    per = rng.choice([2, 2, 3])                      # nodes per tagged task
+    ntag = rng.choice([1, 2])
+    nn = per * ntag
+    nodes = [{'index': i, 'cores': [0] * cpn, 'gpus': [], 'lfs': 0, 'mem': 0} for i in range(nn)]
+    E = lambda inc=None, un=None: {'incoming': inc or [], 'marks': [], 'envs': [], 'unsched': un or []}
+    first = [_req(k, per * cpn, 1, colo=k + 1, excl=True) for k in range(ntag)]
+    late = _req(50, rng.randint(1, cpn), 1, colo=9, excl=rng.random() < 0.8)
+    iters = [E([{'sched': first}]), E(None, [[k for k in range(ntag)]]), E(), E([{'sched': [late]}]), E(), E()]
+    if rng.random() < 0.4:
+        # ... or it arrives while the others still run (it waits alone), and is started when they complete
+        iters = [E([{'sched': first}]), E([{'sched': [late]}]), E(None, [[k for k in range(ntag)]]), E(), E(), E()]
+    return {'cfg': {'cpn': cpn, 'gpn': 0, 'lfs': 0, 'mem': 0, 'scattered': True}, 'nodes': nodes, 'iters': iters}
+
+
 def gen_colo_script(rng):
     """property-directed (C02, colocate): a continuous (non-scattered) pilot with some nodes full; a tagged task of several
     ranks is placed - possibly after its walk found ranks on a node, met a full node and started over - and then a second
@@ -133,6 +152,8 @@ def run(ctx, prop):
         scripts.append(schedlib.keep_valid_releases(rp, gen_colo_script(rng)))
     for i in range(ctx.n(25, 500)):
         scripts.append(schedlib.keep_valid_releases(rp, gen_alone_script(rng)))
+    for i in range(ctx.n(20, 400)):
+        scripts.append(schedlib.keep_valid_releases(rp, gen_excl_script(rng)))
     for i in range(ctx.n(2, 40)):
         # large pilots: more than 512 releases reach the scheduler within one drain of the unschedule queue
         scripts.append(schedlib.fill_releases(rp, schedlib.gen_big_script(rng)))
